@@ -234,6 +234,42 @@ func genC18(c *ctx) {
 		}
 		addProhibits(m.Cav{Kind: "CMaxValidity", ID: mv}, mkDR(r, r.Intn(2), 0, 0, "rel", ds), "maxvalidity/random", true)
 	}
+	// 1b. scale: requests with many identities and long organisation lists (33, 100, 300 distinct ids): the required one is
+	// the first, a middle one, the last, or absent; asked three times each (id sets are built from Go maps)
+	for _, k := range []int{33, 100, 300} {
+		base := mkDR(r, 0, 0, 0, "rel", 60)
+		var fl []m.FlyioAuth
+		var gh [][]uint64
+		var gg []string
+		for j := 0; j < k; j++ {
+			if j%10 == 0 {
+				fl = append(fl, m.FlyioAuth{User: uint64(5000 + j)})
+				gh = append(gh, nil)
+			}
+			fl[len(fl)-1].Orgs = append(fl[len(fl)-1].Orgs, uint64(1000+j))
+			gh[len(gh)-1] = append(gh[len(gh)-1], uint64(1000+j))
+			gg = append(gg, fmt.Sprintf("d%04d.example", j))
+		}
+		a := base
+		a.Flyio, a.GitHub, a.Google = fl, gh, gg
+		for rep := 0; rep < 3; rep++ {
+			for _, j := range []int{0, k / 2, k - 1, k, k + 5} {
+				addProhibits(m.Cav{Kind: "CConfineOrganization", ID: uint64(1000 + j)}, a, "identity/scale", true)
+				addProhibits(m.Cav{Kind: "CConfineGitHubOrg", ID: uint64(1000 + j)}, a, "identity/scale", true)
+				addProhibits(m.Cav{Kind: "CConfineUser", ID: uint64(5000 + j - j%10)}, a, "identity/scale", true)
+				addProhibits(m.Cav{Kind: "CConfineUser", ID: uint64(1000 + j)}, a, "identity/scale", true)
+				addProhibits(m.Cav{Kind: "CConfineGoogleHD", S: [3]string{fmt.Sprintf("d%04d.example", j)}}, a, "identity/scale", true)
+			}
+		}
+		// a small request right after the big one (pooled or memoised id sets must not carry over)
+		small := mkDR(r, 1, 1, 1, "rel", 60)
+		for _, j := range []int{0, k - 1} {
+			addProhibits(m.Cav{Kind: "CConfineOrganization", ID: uint64(1000 + j)}, small, "identity/after-scale", true)
+			addProhibits(m.Cav{Kind: "CConfineGitHubOrg", ID: uint64(1000 + j)}, small, "identity/after-scale", true)
+			addProhibits(m.Cav{Kind: "CConfineUser", ID: uint64(5000 + j - j%10)}, small, "identity/after-scale", true)
+			addProhibits(m.Cav{Kind: "CConfineGitHubOrg", ID: uint64(5000 + j - j%10)}, small, "identity/after-scale", true)
+		}
+	}
 	// 2b. the limit that counts can sit under any number of conditional wrappers
 	for _, depth := range []int{1, 2, 31, 32, 33, 34, 64, 100} {
 		inner := m.Cav{Kind: "CMaxValidity", ID: 60}
